@@ -202,6 +202,8 @@ type FilePool struct {
 
 // Get file content from the filepool
 func (fp *FilePool) Get(fd *FileDescriptior) []byte {
+	verifDelay("pool_get")
+	verifTrace("pool_get", fd.FilePath)
 	fp.mux.Lock()
 	if fp.list == nil {
 		fp.list = make(map[string][]byte)
